@@ -17,6 +17,7 @@ type Val struct {
 	untyped bool       // untyped integer literal
 	lit     *big.Int
 	isNil   bool
+	mk      func(Sort) Term // untyped composite: rebuild at a given integer sort
 }
 
 type Env struct {
@@ -82,6 +83,12 @@ func (e *Env) coerce(v Val, like Val) Val {
 		}
 		efail("nil compared with sort %s", like.T.Sort)
 	}
+	if v.untyped && v.mk != nil {
+		if _, ok := like.T.Sort.isBV(); ok || like.T.Sort == SInt {
+			return Val{T: v.mk(like.T.Sort), GT: like.GT}
+		}
+		efail("integer expression used with sort %s", like.T.Sort)
+	}
 	if v.untyped {
 		if w, ok := like.T.Sort.isBV(); ok {
 			n := new(big.Int).Set(v.lit)
@@ -104,11 +111,7 @@ func (e *Env) unify(a, b Val) (Val, Val) {
 	} else if (b.untyped || b.isNil) && !(a.untyped || a.isNil) {
 		b = e.coerce(b, a)
 	} else if a.untyped && b.untyped {
-		// both literals: mathematical integers (only meaningful in int mode)
-		if e.c.mode == "bv" {
-			a = e.coerce(a, Val{T: T(bvSort(64), "")})
-			b = e.coerce(b, Val{T: T(bvSort(64), "")})
-		}
+		return a, b
 	}
 	if a.T.Sort != b.T.Sort {
 		efail("sort mismatch: %s (%s) vs %s (%s)", a.T.S, a.T.Sort, b.T.S, b.T.Sort)
@@ -264,8 +267,8 @@ func (e *Env) binary(x *EBin) Val {
 			return Val{T: tEq(a.T, b.T), GT: boolT}
 		}
 	}
-	a, b := e.unify(e.eval(x.X), e.eval(x.Y))
-	if a.untyped && b.untyped && c.mode == "int" {
+	a, b := e.eval(x.X), e.eval(x.Y)
+	if a.untyped && b.untyped && a.lit != nil && b.lit != nil {
 		// constant folding for literals
 		n := new(big.Int)
 		switch x.Op {
@@ -284,6 +287,27 @@ func (e *Env) binary(x *EBin) Val {
 			return Val{T: T(SInt, bigLit(n)), untyped: true, lit: n}
 		}
 	}
+	if a.untyped && b.untyped {
+		// untyped composite (e.g. ite(c, 1, 2) + 1): built lazily at the sort it is used with
+		av, bv2, op := a, b, x.Op
+		switch op {
+		case "==", "!=", "<", "<=", ">", ">=":
+			like := Val{T: T(c.I(), ""), GT: types.Typ[types.Int]}
+			return e.binTyped(op, e.coerce(av, like), e.coerce(bv2, like))
+		}
+		return Val{T: T(SInt, "?untyped"), untyped: true, mk: func(s Sort) Term {
+			like := Val{T: T(s, "")}
+			return e.binTyped(op, e.coerce(av, like), e.coerce(bv2, like)).T
+		}}
+	}
+	a, b = e.unify(a, b)
+	return e.binTyped(x.Op, a, b)
+}
+
+func (e *Env) binTyped(op string, a, b Val) Val {
+	c := e.c
+	boolT := types.Typ[types.Bool]
+	x := struct{ Op string }{op}
 	gt := a.GT
 	if gt == nil {
 		gt = b.GT
@@ -547,7 +571,14 @@ func (e *Env) call(x *ECall) Val {
 		if gt == nil {
 			gt = b.GT
 		}
-		return Val{T: tIte(cnd.T, a.T, b.T), GT: gt, untyped: a.untyped && b.untyped}
+		if a.untyped && b.untyped {
+			av, bvv := a, b
+			return Val{T: tIte(cnd.T, a.T, b.T), untyped: true, mk: func(s Sort) Term {
+				like := Val{T: T(s, "")}
+				return tIte(cnd.T, e.coerce(av, like).T, e.coerce(bvv, like).T)
+			}}
+		}
+		return Val{T: tIte(cnd.T, a.T, b.T), GT: gt}
 	case "len", "cap":
 		v := e.eval(x.Args[0])
 		switch {
@@ -623,6 +654,16 @@ func (e *Env) call(x *ECall) Val {
 			efail("upd sorts: key %s/%s value %s/%s", k.T.Sort, ks, v.T.Sort, vs)
 		}
 		return Val{T: tStore(a.T, k.T, v.T)}
+	case "deref":
+		v := e.eval(x.Args[0])
+		if v.GT == nil {
+			efail("deref of value without Go type")
+		}
+		pt, ok := v.GT.Underlying().(*types.Pointer)
+		if !ok {
+			efail("deref of non-pointer %s", v.GT)
+		}
+		return Val{T: c.load(e.st, c.objLoc(v.T, pt.Elem())), GT: pt.Elem()}
 	case "isnil":
 		v := e.eval(x.Args[0])
 		return Val{T: tEq(v.T, e.coerce(Val{isNil: true}, v).T), GT: boolT}
@@ -646,6 +687,21 @@ func (e *Env) call(x *ECall) Val {
 		v := e.eval(x.Args[0])
 		gt, _ := e.resolveTypeText(x.Args[1].String())
 		return Val{T: c.typeRange(v.T, gt), GT: boolT}
+	}
+	if sf, ok := c.db.specs[id.Name]; ok && sf.Macro {
+		if len(x.Args) != len(sf.Params) {
+			efail("macro %s expects %d arguments", sf.Name, len(sf.Params))
+		}
+		inner := *e
+		inner.vars = map[string]Val{}
+		for i, a := range x.Args {
+			inner.vars[sf.Params[i].Name] = e.eval(a)
+		}
+		inner.local = nil
+		if p := pkgByPath[sf.Pkg]; p != nil {
+			inner.pkg = p
+		}
+		return inner.eval(sf.Body)
 	}
 	if sf, ok := c.db.specs[id.Name]; ok {
 		var args []Val
@@ -860,7 +916,7 @@ func (c *Ctx) declareSpec(sf *SpecFunc) {
 		return
 	}
 	sig := c.specSig(sf)
-	if sf.Body == nil {
+	if sf.Body == nil || c.opaque[sf.Name] {
 		var ps []string
 		for _, p := range sig.params {
 			ps = append(ps, string(p))
@@ -869,6 +925,12 @@ func (c *Ctx) declareSpec(sf *SpecFunc) {
 		return
 	}
 	c.declared[name] = true // before evaluating the body (recursion)
+	okDecl := false
+	defer func() {
+		if !okDecl {
+			delete(c.declared, name)
+		}
+	}()
 	env := &Env{c: c, vars: map[string]Val{}, pkg: pkgByPath[sf.Pkg], st: &State{heap: map[string]Term{}, alloc: intLit(0)}}
 	var ps []string
 	for i, p := range sf.Params {
@@ -886,6 +948,7 @@ func (c *Ctx) declareSpec(sf *SpecFunc) {
 		kw = "define-fun-rec"
 	}
 	c.decls = append(c.decls, fmt.Sprintf("(%s %s (%s) %s %s)", kw, name, strings.Join(ps, " "), sig.result, body.T.S))
+	okDecl = true
 }
 
 // axiomTerm builds the closed formula of an axiom or lemma.
